@@ -860,6 +860,113 @@ def fam_sliding_multi_axis(chk, da, tier):
             chk.traces_validated += 1
 
 
+def fam_overlap_2d(chk, da, tier):
+    """map_overlap on 2-D arrays with depths on EITHER or BOTH axes and a boundary kind per axis: the block function sums the
+    (2r0+1) x (2r1+1) neighbourhood by rolling inside the extended block; the oracle applies the same neighbourhood sum to the
+    globally padded array (np.pad per axis with the NumPy mode of the boundary kind).  Axes with boundary "none" are compared on
+    their interior only (cells within the radius of an end have no halo there)."""
+    rng = chk.rng
+    for it in range(1500 if tier == "thorough" else 160):
+        shape = (rng.choice([4, 6, 9]), rng.choice([3, 5, 8]))
+        a = data(rng, shape[0] * shape[1]).reshape(shape)
+        chunks = (chunkings(rng, shape[0]), chunkings(rng, shape[1]))
+        kinds = (rng.choice(KINDS), rng.choice(KINDS))
+        depth = tuple(rng.choice([0, 1, 1, 2]) for _ in range(2))
+        depth = tuple(min(d, n) for d, n in zip(depth, shape))
+        rad = tuple(rng.randint(0, d) for d in depth)
+        if depth == (0, 0):
+            continue
+
+        def f(b, _r=rad):
+            out = np.zeros_like(b)
+            for i in range(-_r[0], _r[0] + 1):
+                for j in range(-_r[1], _r[1] + 1):
+                    out = out + np.roll(np.roll(b, i, axis=0), j, axis=1)
+            return out
+        desc = {"fn": "map_overlap-2d", "shape": shape, "chunks": chunks, "depth": depth, "radius": rad, "boundary": kinds, "data": a.tolist()}
+        chk.count(f"overlap2d:{kinds[0]}+{kinds[1]}:depth-axes={''.join(str(i) for i, d in enumerate(depth) if d)}")
+        chk.case(("overlap2d", shape, chunks, depth, rad, kinds, it), nontrivial=len(chunks[0]) * len(chunks[1]) > 1)
+        try:
+            with warnings.catch_warnings():
+                warnings.simplefilter("ignore")
+                y = da.map_overlap(f, da.from_array(a, chunks=chunks), depth={0: depth[0], 1: depth[1]},
+                                   boundary={0: bval(kinds[0]), 1: bval(kinds[1])}, dtype="int64")
+                got = np.asarray(y.compute(scheduler="sync"))
+        except Exception as e:  # noqa: BLE001
+            if any(d > min(c) for d, c in zip(depth, chunks)) and "overlapping depth" in str(e):
+                chk.count("overlap2d:declined-depth>chunk")
+                continue
+            chk.violation("2-D map_overlap raises: " + norm_err(e), desc, signature={"fn": "map_overlap-2d", "class": "raises", "error": norm_err(e)})
+            continue
+        p = a
+        for ax in (0, 1):
+            if rad[ax] and kinds[ax] != "none":
+                pw = [(0, 0), (0, 0)]
+                pw[ax] = (rad[ax], rad[ax])
+                p = np.pad(p, pw, mode=NP_PAD[kinds[ax]], **({"constant_values": CONST} if kinds[ax] == "const" else {}))
+        want = np.zeros(shape, dtype="int64")
+        o0 = rad[0] if kinds[0] != "none" else 0
+        o1 = rad[1] if kinds[1] != "none" else 0
+        ok_rows = [i for i in range(shape[0]) if kinds[0] != "none" or rad[0] <= i < shape[0] - rad[0]]
+        ok_cols = [j for j in range(shape[1]) if kinds[1] != "none" or rad[1] <= j < shape[1] - rad[1]]
+        for i in ok_rows:
+            for j in ok_cols:
+                want[i, j] = p[i + o0 - rad[0]: i + o0 + rad[0] + 1, j + o1 - rad[1]: j + o1 + rad[1] + 1].sum()
+        sel = np.ix_(ok_rows, ok_cols)
+        if got.shape != shape or not np.array_equal(got[sel], want[sel]):
+            chk.violation("2-D map_overlap differs from the neighbourhood sum on the globally padded array",
+                          {**desc, "impl": got.tolist(), "numpy": want.tolist()},
+                          signature={"fn": "map_overlap-2d", "class": "wrong-value", "boundary": "+".join(kinds)})
+        else:
+            chk.traces_validated += 1
+
+
+def fam_scan_variants(chk, da, tier):
+    """nancumsum / nancumprod over data with NaNs, and cumsum / cumprod over MASKED arrays (masked entries are skipped and stay
+    masked), both methods, 1-D and 2-D, many-block layouts incl. zero-size chunks: NumPy is the oracle."""
+    rng = chk.rng
+    for it in range(1200 if tier == "thorough" else 140):
+        two_d = rng.random() < 0.35
+        n = rng.choice([1, 2, 3, 5, 8, 13])
+        shape = (n, 3) if two_d else (n,)
+        axis = rng.choice([0, 1]) if two_d else 0
+        c0 = chunkings(rng, n, zero=rng.random() < 0.3)
+        chunks = (c0, (2, 1)) if two_d else (c0,)
+        variant = rng.choice(["nancumsum", "nancumprod", "masked-cumsum", "masked-cumprod"])
+        method = rng.choice(["sequential", "blelloch"])
+        base = np.array([rng.choice([1, 2, 3, -1, -2]) for _ in range(int(np.prod(shape)))], dtype="float64").reshape(shape)
+        holes = np.array([rng.random() < 0.3 for _ in range(base.size)]).reshape(shape)
+        desc = {"fn": variant, "method": method, "shape": shape, "chunks": chunks, "axis": axis, "data": base.tolist(), "holes": holes.tolist()}
+        chk.count(f"scan-variant:{variant}:{method}")
+        chk.case(("scan-variant", variant, method, shape, chunks, axis, it), nontrivial=len(c0) > 1)
+        try:
+            with warnings.catch_warnings():
+                warnings.simplefilter("ignore")
+                if variant.startswith("nan"):
+                    a = base.copy()
+                    a[holes] = np.nan
+                    got = np.asarray(getattr(da, variant)(da.from_array(a, chunks=chunks), axis=axis, method=method).compute(scheduler="sync"))
+                    want = getattr(np, variant)(a, axis=axis)
+                    ok = got.shape == want.shape and np.allclose(got, want, equal_nan=True)
+                else:
+                    a = np.ma.masked_array(base, mask=holes)
+                    fn = variant.split("-")[1]
+                    got = getattr(da, fn)(da.from_array(a, chunks=chunks, asarray=False), axis=axis, method=method).compute(scheduler="sync")
+                    want = getattr(np.ma, fn)(a, axis=axis) if hasattr(np.ma, fn) else getattr(a, fn)(axis=axis)
+                    gm, wm = np.ma.getmaskarray(got), np.ma.getmaskarray(want)
+                    ok = got.shape == want.shape and np.array_equal(gm, wm) and np.allclose(np.ma.getdata(got)[~gm], np.ma.getdata(want)[~wm])
+        except Exception as e:  # noqa: BLE001
+            chk.violation(f"{variant} ({method}) raises: " + norm_err(e), desc, signature={"fn": variant, "class": "raises", "method": method, "error": norm_err(e),
+                                                                                            "zero_chunk": 0 in c0})
+            continue
+        if not ok:
+            chk.violation(f"{variant} ({method}) differs from NumPy", {**desc, "impl": np.ma.filled(got, np.nan).tolist() if variant.startswith("masked") else got.tolist(),
+                                                                      "numpy": np.ma.filled(want, np.nan).tolist() if variant.startswith("masked") else want.tolist()},
+                          signature={"fn": variant, "class": "wrong-value", "method": method, "zero_chunk": 0 in c0})
+        else:
+            chk.traces_validated += 1
+
+
 def _blocks_of(arr):
     """blocks of a 1-D dask array as it is defined (advertised grid), computed block by block"""
     from dask.local import get_sync
@@ -1559,9 +1666,11 @@ def run(chk: Check):
     fam_sliding_struct(chk, da, chk.tier)
     fam_nested(chk, da, chk.tier)
     fam_scan(chk, da, chk.tier)
+    fam_scan_variants(chk, da, chk.tier)
     fam_overlap_struct(chk, da, chk.tier)
     fam_overlap_values(chk, da, chk.tier)
     fam_sliced_results(chk, da, chk.tier)
+    fam_overlap_2d(chk, da, chk.tier)
     fam_sliding_multi_axis(chk, da, chk.tier)
     fam_diff_gradient_values(chk, da, chk.tier)
     fam_diff_gradient(chk, da, chk.tier)
